@@ -39,6 +39,11 @@ CLAIMS = {
     note="as C03.",
     technique="Lean 4 prefix-safety invariant of the parser monad + refinement + exhaustive truncation sweep",
     ref="7/C06"),
+  "C07": dict(
+    text="partial. Lean 4 (on arbitrary input bits, no well-formedness assumed): every decoded offset is <= its range (no underflow of k_range - offset), every decoded value lower + off*gcd <= upper < 2^W (no overflow of the W-bit type), k <= W with the shift skipped exactly when k = W, everything the metadata parser accepts is bounded (lower <= upper, valid bounds < 2^W, 1 <= gcd, code length < 32, counts/sizes within their fields), run counts < 2^24 (2^31 for hostile jumpstarts), a batch never exceeds min(limit, remaining), nProcessed <= n, bits_remaining saturates and skip stays inside the data, every operation leaves the reader inside the written data (Advances), complete trees never make the lookup fail other than for lack of data; these hold in every state reachable from the initial one on arbitrary bytes (invariant HInv preserved by all operations). Termination = totality of the model. NOT covered by theorems: word-level BitReader/BitWords shifts and indexing, the fast path's guaranteed_safe_num_blocks bound, memory exhaustion. Tie: mutation fuzz (bit flips, substitutions, splices, deletions, duplications, truncations, size-field attacks, random bytes) of files of every dtype through every decode entry point and mixed call sequences under overflow checks: no panic/hang/abort; a sample compared with the operational model (class, kinds, bit positions).",
+    note="partial: the unverified parts are exactly where a panic could still hide on inputs the fuzz does not generate.",
+    technique="Lean 4 safety lemmas + reachable-state invariant on the operational model + mutation fuzz with model comparison",
+    ref="7/C07"),
   "C08": dict(
     text="Lean 4 theorems over an operational model of Decompressor with the code's commit points explicit (with_reader commits only on Ok but keeps closure mutations; dirty batch decode wrapped by snapshot/restore; simple_decompress wrapped by snapshot/restore): every operation that answers an error leaves the state equal (6 theorems), next answering none leaves the state equal under a proved reachable-state invariant (preserved by all operations), all protocol violations answer InvalidArgument with the state unchanged, terminated is set only by the footer. Tie: random call interleavings over valid and corrupted files compared token by token (results, error kinds, bit_idx) with the model; direct oracles on the implementation: Debug rendering identical before/after every failed call, twin run without the failed calls, retry after writing the missing bytes.",
     note="The model (lean/Qco/Op/Decomp.lean) is hand-written from decompressor.rs/num_decompressor.rs/chunk_body_decompressor.rs and tied by the dops correspondence stream; word-level bit packing is modelled as a bit list.",
